@@ -33,7 +33,7 @@ Definition g_cfg_cert : cfg :=
      c_fl := [(2, [[Hs 1 0 0 132 132]]);
               (3, [[Hs 3 0 0 23 23]]);
               (4, [[Hs 1 1 0 152 152]]);
-              (5, [[Hs 2 1 0 55 55; Hs 11 2 0 354 354; Hs 12 3 0 104 104; Hs 14 4 0 0 0]]);
+              (5, [[Hs 2 1 0 55 55; Hs 11 2 0 351 351; Hs 12 3 0 104 104; Hs 14 4 0 0 0]]);
               (7, [[Hs 16 2 0 33 33; CCS; Fin 3]]);
               (9, [[CCS; Fin 5]])] |}.
 Definition g_cfg_cert_clientauth : cfg :=
@@ -41,15 +41,15 @@ Definition g_cfg_cert_clientauth : cfg :=
      c_fl := [(2, [[Hs 1 0 0 132 132]]);
               (3, [[Hs 3 0 0 23 23]]);
               (4, [[Hs 1 1 0 152 152]]);
-              (5, [[Hs 2 1 0 55 55; Hs 11 2 0 354 354; Hs 12 3 0 104 104; Hs 13 4 0 50 50; Hs 14 5 0 0 0]]);
-              (7, [[Hs 11 2 0 355 355; Hs 16 3 0 33 33; Hs 15 4 0 68 68; CCS; Fin 5]]);
+              (5, [[Hs 2 1 0 55 55; Hs 11 2 0 351 351; Hs 12 3 0 104 104; Hs 13 4 0 50 50; Hs 14 5 0 0 0]]);
+              (7, [[Hs 11 2 0 353 353; Hs 16 3 0 33 33; Hs 15 4 0 68 68; CCS; Fin 5]]);
               (9, [[CCS; Fin 6]])] |}.
 Definition g_cfg_cert_mtu200 : cfg :=
   {| c_hv := true; c_psk := false; c_resume := false; c_initial := 1000%N; c_backoff := true;
      c_fl := [(2, [[Hs 1 0 0 132 132]]);
               (3, [[Hs 3 0 0 23 23]]);
               (4, [[Hs 1 1 0 152 152]]);
-              (5, [[Hs 2 1 0 55 55]; [Hs 11 2 0 200 354]; [Hs 11 2 200 154 354]; [Hs 12 3 0 104 104; Hs 14 4 0 0 0]]);
+              (5, [[Hs 2 1 0 55 55]; [Hs 11 2 0 200 351]; [Hs 11 2 200 151 351]; [Hs 12 3 0 104 104; Hs 14 4 0 0 0]]);
               (7, [[Hs 16 2 0 33 33; CCS; Fin 3]]);
               (9, [[CCS; Fin 5]])] |}.
 Definition g_cfg_cert_clientauth_mtu150 : cfg :=
@@ -57,8 +57,8 @@ Definition g_cfg_cert_clientauth_mtu150 : cfg :=
      c_fl := [(2, [[Hs 1 0 0 132 132]]);
               (3, [[Hs 3 0 0 23 23]]);
               (4, [[Hs 1 1 0 150 152]; [Hs 1 1 150 2 152]]);
-              (5, [[Hs 2 1 0 55 55]; [Hs 11 2 0 150 354]; [Hs 11 2 150 150 354]; [Hs 11 2 300 54 354]; [Hs 12 3 0 104 104]; [Hs 13 4 0 50 50; Hs 14 5 0 0 0]]);
-              (7, [[Hs 11 2 0 150 355]; [Hs 11 2 150 150 355]; [Hs 11 2 300 55 355; Hs 16 3 0 33 33]; [Hs 15 4 0 68 68; CCS]; [Fin 5]]);
+              (5, [[Hs 2 1 0 55 55]; [Hs 11 2 0 150 351]; [Hs 11 2 150 150 351]; [Hs 11 2 300 51 351]; [Hs 12 3 0 104 104]; [Hs 13 4 0 50 50; Hs 14 5 0 0 0]]);
+              (7, [[Hs 11 2 0 150 353]; [Hs 11 2 150 150 353]; [Hs 11 2 300 53 353; Hs 16 3 0 33 33]; [Hs 15 4 0 68 68; CCS]; [Fin 5]]);
               (9, [[CCS; Fin 6]])] |}.
 Definition g_cfg_psk_resumed : cfg :=
   {| c_hv := false; c_psk := true; c_resume := true; c_initial := 1000%N; c_backoff := true;
@@ -83,7 +83,7 @@ Definition g_cfg_cert_stores_mtu200 : cfg :=
      c_fl := [(2, [[Hs 1 0 0 132 132]]);
               (3, [[Hs 3 0 0 23 23]]);
               (4, [[Hs 1 1 0 152 152]]);
-              (5, [[Hs 2 1 0 87 87]; [Hs 11 2 0 200 354]; [Hs 11 2 200 154 354]; [Hs 12 3 0 104 104; Hs 14 4 0 0 0]]);
+              (5, [[Hs 2 1 0 87 87]; [Hs 11 2 0 200 351]; [Hs 11 2 200 151 351]; [Hs 12 3 0 104 104; Hs 14 4 0 0 0]]);
               (7, [[Hs 16 2 0 33 33; CCS; Fin 3]]);
               (9, [[CCS; Fin 5]])] |}.
 Definition g_cfg_psk_stores : cfg :=
